@@ -190,6 +190,100 @@ Variable F : Vm.fops.
 Variable bld : Vm.build.
 Variable reenter : N -> Vm.state -> Vm.rres.
 
+(* the statement of call_executes_designated_body for ANY instruction list whose encoding is the program and whose
+   call skeleton is C08_call_resolves's (CompilerCallPairProg exhibits the pairs of the Call cards in such a list) *)
+Lemma call_pair_executes : forall M o B is mi,
+  compile M o = COk B ->
+  module_names_dotfree (with_std std_module M) = true ->
+  let root := with_std std_module M in
+  let P := to_vm B in
+  p_bytecode B = encode is -> main_index (m_functions M) 0 = Some mi ->
+  Forall2 (site_item_ok root) (flat_map site_items (swap0 (tree_functions root []) mi)) (filter is_call_instr is) ->
+    forall a b h ar, is = a ++ IFunctionPointer h ar :: ICallFunction :: b ->
+      let ip := bytes a in
+      exists st name pos arn,
+        (* (i) the pair is the compilation of the reference to [name] made at site [st] (program order) *)
+        nth_error (flat_map site_items (swap0 (tree_functions root []) mi)) (length (filter is_call_instr a))
+          = Some (st, CPtr name) /\
+        site_target root st name = Some (pos, arn) /\
+        h = handle_from_u64 (N.of_nat pos) /\ ar = N.of_nat arn mod two32 /\
+        (* (ii) the two dispatches *)
+        (forall s top rest,
+           VmProofs.stack_ok s -> (S (length (VmProofs.stack_of s)) < VmUpvalueProofs.cap s)%nat ->
+           Vm.st_calls s = top :: rest ->
+           let n := length (VmProofs.stack_of s) in
+           let fa := N.of_nat (length (Vm.st_heap s)) in
+           let s1 := VmCallProofs.pushed (Vm.set_heap s (Vm.st_heap s ++ [Vm.OFun h ar])) (Vm.VObj fa) in
+           let s2 := VmCallProofs.popped s1 n in
+           Vm.step F bld P reenter ip s = Vm.SNext (ip + 9) s1 /\
+           Vm.step F bld P reenter (ip + 9) s1 = VmCallProofs.call_result P (ip + 9) s2 n h ar None top rest /\
+           VmProofs.stack_ok s2 /\ VmProofs.stack_of s2 = VmProofs.stack_of s) /\
+        (* (iii) for every target but `main`: labels[h] is the first byte of the code of the designated function *)
+        (pos <> mi -> label_keys_distinct_module M (o_recursion_limit o) = true ->
+         exists fid tgt f before body rest',
+           spec_resolve root (fs_path st) (fs_imports st) name = SFound fid /\
+           nth_error (tree_functions root []) pos = Some tgt /\
+           fs_path tgt = fst fid /\ fs_name tgt = snd fid /\ function_at root fid = Some (fs_fn tgt) /\
+           ir_of (N.of_nat pos) tgt f /\
+           p_bytecode B = encode before ++ encode body ++ encode rest' /\
+           (exists c1 c2, compile_other f c1 = ROk tt c2 /\ rev (cs_code c1) = before /\
+                          rev (cs_code c2) = before ++ body) /\
+           Vm.assoc h (Vm.p_labels P) = Some (N.of_nat (length (encode before))) /\
+           forall s top rest,
+             VmProofs.stack_ok s -> (S (length (VmProofs.stack_of s)) < VmUpvalueProofs.cap s)%nat ->
+             Vm.st_calls s = top :: rest ->
+             (ar <= N.of_nat (length (VmProofs.stack_of s)))%N -> (S (length rest) < Vm.call_stack_size)%nat ->
+             let n := length (VmProofs.stack_of s) in
+             let fa := N.of_nat (length (Vm.st_heap s)) in
+             let s1 := VmCallProofs.pushed (Vm.set_heap s (Vm.st_heap s ++ [Vm.OFun h ar])) (Vm.VObj fa) in
+             Vm.step F bld P reenter (ip + 9) s1 =
+               Vm.SNext (N.of_nat (length (encode before)))
+                 (Vm.set_calls (VmCallProofs.popped s1 n)
+                    (VmCallProofs.callee_frame (ip + 9) n ar None :: VmCallProofs.caller_frame (ip + 9) top :: rest))).
+Proof.
+  intros M o B is mi Hc Hd root P Henc Hmi HF2.
+  intros a b h ar His ip.
+  assert (Hk : nth_error (filter is_call_instr is) (length (filter is_call_instr a)) = Some (IFunctionPointer h ar)).
+  { rewrite His, filter_app. cbn [filter is_call_instr]. apply nth_error_app_len. }
+  destruct (Forall2_nth_r _ _ _ _ _ HF2 Hk) as ([st it] & Hx & Hok).
+  unfold site_item_ok in Hok. cbn [fst snd] in Hok. destruct it as [name|]; [|discriminate Hok].
+  destruct Hok as (pos & arn & Htgt & Ei). injection Ei as -> ->.
+  exists st, name, pos, arn. split; [exact Hx|]. split; [exact Htgt|]. split; [reflexivity|]. split; [reflexivity|].
+  (* where the two instructions lie *)
+  assert (Hc1 : C01SimVm.code_at P ip (IFunctionPointer (handle_from_u64 (N.of_nat pos)) (N.of_nat arn mod two32))).
+  { apply (C01SimVm.code_at_encode P a _ (ICallFunction :: b)). unfold P. cbn [to_vm Vm.p_code]. rewrite Henc, His. reflexivity. }
+  assert (Hc2 : C01SimVm.code_at P (ip + 9) ICallFunction).
+  { replace (ip + 9) with (bytes (a ++ [IFunctionPointer (handle_from_u64 (N.of_nat pos)) (N.of_nat arn mod two32)]))
+      by (rewrite bytes_app; reflexivity).
+    apply (C01SimVm.code_at_encode P _ _ b). unfold P. cbn [to_vm Vm.p_code]. rewrite Henc, His, <- app_assoc. reflexivity. }
+  assert (Hh : handle_from_u64 (N.of_nat pos) < 4294967296) by apply handle_from_u64_lt.
+  assert (Har : N.of_nat arn mod two32 < 4294967296) by (apply N.mod_lt; discriminate).
+  split.
+  { intros s top rest Hok Hroom Hcs n fa s1 s2.
+    destruct (VmCallProofs.vm_static_call F bld P reenter ip s _ _ top rest Hc1 Hc2 Hh Har Hok Hroom Hcs)
+      as (E1 & E2 & Hok2 & Hst2 & _).
+    split; [exact E1|]. split; [exact E2|]. split; [exact Hok2 | exact Hst2]. }
+  intros Hne Hdist.
+  destruct (site_target_site root st name pos arn Htgt) as (fid & fn & imps & Es & Ef & -> & Hn).
+  assert (Hm : main_index (m_functions M) 0 <> Some pos) by (rewrite Hmi; intros E; injection E as ->; contradiction).
+  destruct (compile_label_of_position M o B pos _ Hc Hdist Hn Hm) as (f & before & body & rest' & Hir & Hb & Hlab & Hco).
+  exists fid, {| fs_path := fst fid; fs_name := snd fid; fs_fn := fn; fs_imports := imps |}, f, before, body, rest'.
+  split; [exact Es|]. split; [exact Hn|]. cbn [fs_path fs_name fs_fn].
+  split; [reflexivity|]. split; [reflexivity|]. split; [exact Ef|]. split; [exact Hir|]. split; [exact Hb|].
+  split; [exact Hco|].
+  assert (Hl : Vm.assoc (handle_from_u64 (N.of_nat pos)) (Vm.p_labels P) = Some (N.of_nat (length (encode before)))).
+  { unfold P. cbn [to_vm Vm.p_labels]. rewrite assoc_nm_find. exact Hlab. }
+  split; [exact Hl|].
+  intros s top rest Hok Hroom Hcs Hargs Hdepth.
+  destruct (VmCallProofs.vm_static_call F bld P reenter ip s _ _ top rest Hc1 Hc2 Hh Har Hok Hroom Hcs)
+    as (_ & E2 & _).
+  rewrite E2. unfold VmCallProofs.call_result.
+  destruct (N.ltb_spec (N.of_nat (length (VmProofs.stack_of s))) (N.of_nat (length (f_args fn)) mod two32)); [lia|].
+  destruct (Nat.leb_spec Vm.call_stack_size (S (length rest))); [lia|].
+  rewrite Hl. reflexivity.
+Qed.
+
+
 Theorem call_executes_designated_body : forall M o B,
   compile M o = COk B ->
   module_names_dotfree (with_std std_module M) = true ->
@@ -242,45 +336,7 @@ Proof.
   intros M o B Hc Hd root P.
   destruct (compile_calls M o B Hc Hd) as (is & mi & Henc & Hmi & HF2).
   exists is, mi. split; [exact Henc|]. split; [exact Hmi|].
-  intros a b h ar His ip.
-  assert (Hk : nth_error (filter is_call_instr is) (length (filter is_call_instr a)) = Some (IFunctionPointer h ar)).
-  { rewrite His, filter_app. cbn [filter is_call_instr]. apply nth_error_app_len. }
-  destruct (Forall2_nth_r _ _ _ _ _ HF2 Hk) as ([st it] & Hx & Hok).
-  unfold site_item_ok in Hok. cbn [fst snd] in Hok. destruct it as [name|]; [|discriminate Hok].
-  destruct Hok as (pos & arn & Htgt & Ei). injection Ei as -> ->.
-  exists st, name, pos, arn. split; [exact Hx|]. split; [exact Htgt|]. split; [reflexivity|]. split; [reflexivity|].
-  (* where the two instructions lie *)
-  assert (Hc1 : C01SimVm.code_at P ip (IFunctionPointer (handle_from_u64 (N.of_nat pos)) (N.of_nat arn mod two32))).
-  { apply (C01SimVm.code_at_encode P a _ (ICallFunction :: b)). unfold P. cbn [to_vm Vm.p_code]. rewrite Henc, His. reflexivity. }
-  assert (Hc2 : C01SimVm.code_at P (ip + 9) ICallFunction).
-  { replace (ip + 9) with (bytes (a ++ [IFunctionPointer (handle_from_u64 (N.of_nat pos)) (N.of_nat arn mod two32)]))
-      by (rewrite bytes_app; reflexivity).
-    apply (C01SimVm.code_at_encode P _ _ b). unfold P. cbn [to_vm Vm.p_code]. rewrite Henc, His, <- app_assoc. reflexivity. }
-  assert (Hh : handle_from_u64 (N.of_nat pos) < 4294967296) by apply handle_from_u64_lt.
-  assert (Har : N.of_nat arn mod two32 < 4294967296) by (apply N.mod_lt; discriminate).
-  split.
-  { intros s top rest Hok Hroom Hcs n fa s1 s2.
-    destruct (VmCallProofs.vm_static_call F bld P reenter ip s _ _ top rest Hc1 Hc2 Hh Har Hok Hroom Hcs)
-      as (E1 & E2 & Hok2 & Hst2 & _).
-    split; [exact E1|]. split; [exact E2|]. split; [exact Hok2 | exact Hst2]. }
-  intros Hne Hdist.
-  destruct (site_target_site root st name pos arn Htgt) as (fid & fn & imps & Es & Ef & -> & Hn).
-  assert (Hm : main_index (m_functions M) 0 <> Some pos) by (rewrite Hmi; intros E; injection E as ->; contradiction).
-  destruct (compile_label_of_position M o B pos _ Hc Hdist Hn Hm) as (f & before & body & rest' & Hir & Hb & Hlab & Hco).
-  exists fid, {| fs_path := fst fid; fs_name := snd fid; fs_fn := fn; fs_imports := imps |}, f, before, body, rest'.
-  split; [exact Es|]. split; [exact Hn|]. cbn [fs_path fs_name fs_fn].
-  split; [reflexivity|]. split; [reflexivity|]. split; [exact Ef|]. split; [exact Hir|]. split; [exact Hb|].
-  split; [exact Hco|].
-  assert (Hl : Vm.assoc (handle_from_u64 (N.of_nat pos)) (Vm.p_labels P) = Some (N.of_nat (length (encode before)))).
-  { unfold P. cbn [to_vm Vm.p_labels]. rewrite assoc_nm_find. exact Hlab. }
-  split; [exact Hl|].
-  intros s top rest Hok Hroom Hcs Hargs Hdepth.
-  destruct (VmCallProofs.vm_static_call F bld P reenter ip s _ _ top rest Hc1 Hc2 Hh Har Hok Hroom Hcs)
-    as (_ & E2 & _).
-  rewrite E2. unfold VmCallProofs.call_result.
-  destruct (N.ltb_spec (N.of_nat (length (VmProofs.stack_of s))) (N.of_nat (length (f_args fn)) mod two32)); [lia|].
-  destruct (Nat.leb_spec Vm.call_stack_size (S (length rest))); [lia|].
-  rewrite Hl. reflexivity.
+  exact (call_pair_executes M o B is mi Hc Hd Henc Hmi HF2).
 Qed.
 
 End Site.
